@@ -1,0 +1,25 @@
+//go:build verif
+
+package mem
+
+// Contracts for the verification machinery in /verif (comment-only file).
+
+// BufferSlice.Len: the sum of the buffers' lengths; no effects (empty
+// modifies clause, proved; Buffer.Len is assumed effect-free).
+
+//@ func (BufferSlice).Len
+//@   modifies
+//@   loop 1 invariant true
+
+// BufferSlice.Free / Ref release or retain the buffers: they change reference
+// counts and pool state inside package mem only. TRUSTED frame: nothing outside
+// the buffers' own state changes (not proved: the Buffer implementations are
+// reached through an interface).
+
+//@ func (BufferSlice).Free
+//@   trusted
+//@   modifies
+
+//@ func (BufferSlice).Ref
+//@   trusted
+//@   modifies
